@@ -29,7 +29,6 @@ import (
 	"reflect"
 	"slices"
 	"sort"
-	"sync/atomic"
 	"time"
 	"unsafe"
 
@@ -361,8 +360,14 @@ func (x *router) dispatchToRoutees(ctx *ReceiveContext, msg any, routees []*PID)
 func (x *router) routeByStrategy(ctx *ReceiveContext, msg any, routees []*PID) {
 	switch x.routingStrategy {
 	case RoundRobinRouting:
-		n := atomic.AddUint32(&x.roundRobinNext, 1)
-		routee := routees[(int(n)-1)%len(routees)]
+		// roundRobinNext is kept reduced modulo the pool size. An ever-growing
+		// uint32 counter wraps to zero after 2^32 messages, which used to compute
+		// index -1 (a panic that lost the message) and broke the cyclic order
+		// whenever the pool size does not divide 2^32. The router is an actor, so
+		// this runs on its own turn and needs no atomic.
+		idx := int(x.roundRobinNext) % len(routees)
+		x.roundRobinNext = uint32(idx + 1)
+		routee := routees[idx]
 		ctx.Tell(routee, msg)
 	case RandomRouting:
 		routee := routees[rand.IntN(len(routees))] //nolint:gosec
